@@ -81,6 +81,21 @@ def scaleAlongNormalNode (m : Option (MeshVal (List s))) (attr nrm : Option Stri
     else if !m.hasAttr ⟨3, n⟩ then some (MeshVal.empty .triangle)
     else m.scaleAlongNormal a n (amount.getD ((0 : Nat) : s))
 
+/-- `TranslateAttribute3DNodeData.Process` (translate_attribute.go): attribute defaults to Position; mesh and amount must
+    be wired (a nil input is a nil dereference in Go: not modelled, not generated) -/
+def translateNode (m : MeshVal (List s)) (attr : Option String) (t : V3 s) := m.translate (attr.getD "Position") t
+
+/-- `RotateAttribute3DNodeData.Process`: no mesh wired ⇒ the empty triangle mesh; attribute defaults to Position -/
+def rotateNode (m : Option (MeshVal (List s))) (attr : Option String) (q : quaternion.Quaternion s) :
+    Option (MeshVal (List s)) :=
+  match m with
+  | none => some (MeshVal.empty .triangle)
+  | some m => m.rotate (attr.getD "Position") q
+
+/-- `ScaleAttribute3DNodeData.Process`: attribute defaults to Position, origin to `vector3.Zero` -/
+def scaleNode (m : MeshVal (List s)) (attr : Option String) (origin : Option (V3 s)) (a : V3 s) :=
+  m.scaleAbout (attr.getD "Position") (origin.getD V3.Zero) a
+
 /-- The contract of `CropFloat3Attribute` at the vertex level, whatever the incoming index buffer is:
     a point cloud with the input's materials; the surviving vertices are exactly those whose value of attribute `k`
     is `inside`, in their original order, every attribute array carried along (`keepAt` with ONE flag list); the
